@@ -181,7 +181,37 @@ fn c07_judge(d: &mut Driver, rep: &mut Report, c: &TableCase, altered: &[u8], wh
         rep.judge_fail(mk("reading the altered file panics", vec![("outputs", J::s(&out.join(";")))]));
         return;
     }
-    let _ = touched_lo;
+    // F3 (known finding C07/footer-unprotected): the 48-byte footer carries no checksum. If the alteration
+    // lies in the footer's handle area, the table still opens, and the decoded handles differ from the
+    // original ones, then the reader was pointed at other checksum-valid blocks (type confusion) - no reader
+    // of this format can notice. Classified, counted and not reported as a new violation.
+    let n = c.img.len();
+    if touched_lo >= n - 48 && touched_hi <= n - 8 {
+        let handles = |im: &[u8]| -> Vec<u64> {
+            let f = &im[n - 48..n - 8];
+            let mut out = vec![];
+            let mut pos = 0;
+            for _ in 0..4 {
+                let (mut v, mut sh) = (0u64, 0);
+                while pos < f.len() {
+                    let b = f[pos];
+                    pos += 1;
+                    v |= ((b & 0x7f) as u64).checked_shl(sh).unwrap_or(0);
+                    sh += 7;
+                    if b & 0x80 == 0 {
+                        break;
+                    }
+                }
+                out.push(v);
+            }
+            out
+        };
+        if handles(&c.img) != handles(altered) {
+            rep.count("known_F3_footer_handles_redirected_and_still_open");
+            rep.known.push("C07/footer-unprotected".into());
+            return;
+        }
+    }
     // which blocks of the altered file are still intact, by the independent decoder
     let blocks = spec_damaged(d, altered);
     let scan: Vec<String> = out[2..first_get].iter().map(|o| it_out(o)).take_while(|x| x != "none").collect();
@@ -323,7 +353,8 @@ fn c08_session(d: &mut Driver, rep: &mut Report, rng: &mut Rng, img: &[u8], size
     let s = Session { cap: 2, files: vec![img.to_vec()], faults: vec![], ops };
     let req = s.request();
     // leave a trace in case the process dies (abort, stack overflow, runaway allocation)
-    let _ = std::fs::write(progress, &req);
+    let _ = progress;
+    set_case(&req);
     rep.case(&req, true);
     rep.count(&format!("family_{}", family));
     let model = d.ask(&req);
@@ -876,8 +907,9 @@ pub fn c14(ctx: &Ctx) -> Report {
                         if strict && cur != want {
                             rep.judge_fail(mk("after the source works again a seek is not correct", vec![("key", J::s(&hex(key))), ("got", J::s(&cur))]));
                         }
-                        if !strict && cur != "none" && !orig.contains(&cur) {
-                            rep.judge_fail(mk("a seek under read failures exposes something that is not a stored entry", vec![("key", J::s(&hex(key))), ("got", J::s(&cur))]));
+                        // the target is a stored key: under a failure the iterator must be invalid or exactly on it
+                        if !strict && cur != "none" && cur != want {
+                            rep.judge_fail(mk("a seek to a stored key under read failures lands on a different entry (neither invalid nor the entry sought)", vec![("key", J::s(&hex(key))), ("got", J::s(&cur)), ("want", J::s(&want))]));
                         }
                     }
                 };
